@@ -36,6 +36,7 @@ ASSUMPTIONS = [
     "the smallest and largest limit plus the limits themselves",
 ]
 
+WIDE = 100.0  # centre spacing of the wide world, degrees
 QUICK_POS = ["c0", "c1", "b0", "b1", "w0"]
 ALL_POS = ["c0", "c1", "b0", "b1", "w0", "n0", "n1", "f0", "f1"]
 
@@ -83,6 +84,11 @@ def cases(tier, seed):
                     continue  # second row only matters for the near-border / wide pairs
                 out.append(dict(conf, world=world, npatch=npatch, filler=filler, pa=pa, za=za, pb=pb,
                                 row=row, seed=seed, conf_id=ci))
+        # very wide patches: two centres 100 deg apart, probes on the far side of the sphere next to the
+        # Voronoi border (patch radii ~130 deg, so radius_i + radius_j + scale exceeds 180 deg)
+        for (world, _), pa, za, pb in itertools.product(world_np, (-129.0, -129.6), zslots[:2], (-131.5, -130.4)):
+            out.append(dict(conf, world=world, npatch=2, filler="F0", pa=pa, za=za, pb=pb, row=0, seed=seed,
+                            conf_id=ci, wide=True))
     return out
 
 
@@ -106,6 +112,8 @@ def build_catalogs(case):
     seed, npatch = case["seed"], case["npatch"]
     mids, zout = zvals(case["binning"])
     cen_names = ["c0", "c1", "c2"][:npatch]
+    if case.get("wide"):
+        cen_names = [0.0, WIDE]
     prime = iter([2, 3, 5, 7, 11, 13, 17, 19, 23, 29, 31, 37, 41, 43, 47, 53, 59, 61, 67, 71, 73, 79, 83,
                   89, 97, 101, 103, 107, 109, 113, 127, 131, 137, 139, 149, 151, 157, 163, 167, 173])
     W = case["weighted"]
@@ -145,8 +153,12 @@ def build_catalogs(case):
     za = zout if case["za"] == "out" else mids[case["za"]]
     R.append(o(case["pa"], za, "a", row=case["row"]))
     U.append(o(case["pb"], None, "b"))
-    RR.append(o("n0", mids[0], "RRx"))
-    UR.append(o("b1", None, "URx", row=1))
+    if case.get("wide"):
+        RR.append(o(-128.7, mids[0], "RRx"))
+        UR.append(o(-131.0, None, "URx", row=1))
+    else:
+        RR.append(o("n0", mids[0], "RRx"))
+        UR.append(o("b1", None, "URx", row=1))
     return R, U, RR, UR
 
 
@@ -191,7 +203,7 @@ def compare(kind, mode, lib_nc, refres, case, weighted_sep, cfacts):
             why = "same-patch-count"
         else:
             why = "cross-patch-count"
-        sig = f"C01/{why}/{zfact(case)}" if pair_missing else f"C01/{mode}/{kind}/{why}/{cfacts}"
+        sig = f"C01/{why}/{zfact(case)}" + ("/wide-patches" if case.get("wide") else "") if pair_missing else f"C01/{mode}/{kind}/{why}/{cfacts}"
         out.append(viol(sig,
                         f"{mode} {kind} scale {s} bin {b} patches ({i},{j}): counted {got[b, i, j]!r}, "
                         f"reference {want[b, i, j]!r} ({why}; {cfacts})",
@@ -228,7 +240,8 @@ def run_case(case):
     edges, closed = worlds.BINNINGS[case["binning"]]
     rmin, rmax = worlds.scale_config(case["scales"], case["unit"], case["binning"])
     objs = build_catalogs(case)
-    cats = [worlds.realise(world, o, npatch) for o in objs]
+    spacing = WIDE if case.get("wide") else worlds.D
+    cats = [worlds.realise(world, o, npatch, spacing) for o in objs]
     if min(float(c["margin"].min()) for c in cats) < 1e-9:
         return dict(status="skip", skip_rule="object within 1e-9 rad of a Voronoi border")
     if any(len(set(c["patch"].tolist())) < npatch for c in cats):
@@ -250,14 +263,14 @@ def run_case(case):
     if any(r["near_limit"] for m in refs.values() for r in m.values()):
         return dict(status="skip", skip_rule="pair separation within 1e-9 (relative) of a scale or fine-bin limit")
 
-    cen = worlds.centres(world, npatch)
+    cen = worlds.centres(world, npatch, spacing)
     d = runner.fresh_dir("c01")
     lib = [worlds.make_catalog(f"{d}/{name}", c, cen) for name, c in zip(("R", "U", "RR", "UR"), cats)]
     cR, cU, cRR, cUR = lib
     config = yaw.Configuration.create(rmin=rmin, rmax=rmax, unit=case["unit"], edges=edges, closed=closed,
                                       rweight=case["rweight"], resolution=case["res"])
     unitkind = "angular" if case["unit"] in ("deg", "arcmin") else "physical"
-    cfacts = f"{case['binning']}/{unitkind}/{case['filler']}"
+    cfacts = f"{case['binning']}/{unitkind}/{case['filler']}" + ("/wide-patches" if case.get("wide") else "")
     viols = []
     wsep = case["rweight"] is not None
     try:
